@@ -201,7 +201,13 @@ def check_scripted(case, st):
             if tape:
                 nontriv[0] += 1
             check_result(case, st, res, num_anneals, variables, table, spin, D, "scripted tape %r" % (tape,))
-        runs = tapedfs.enumerate_deviations(fn, d, visit)
+        try:
+            runs = tapedfs.enumerate_deviations(fn, d, visit)
+        except tapedfs.ReplayDivergence:
+            # the call's behaviour depends on something other than its arguments and the generator (C12 / C17 report that);
+            # every result seen so far was judged, the rest of this configuration is not explored
+            st.outcomes["scripted: same tape prefix, different requests -> configuration abandoned"] += 1
+            runs = 1
         st.transitions += runs
         st.outcomes["%d executions" % (1 if runs == 1 else 10 ** len(str(runs - 1)))] += 1
         if nontriv[0]:
@@ -247,8 +253,10 @@ def plain_part(ctx):
     n = NWORKERS
 
     def work(k):
+        # MALLOC_PERTURB_: glibc fills every fresh malloc block with a non-zero byte, so a result read from memory the kernel
+        # wrapper never initialised is garbage on every run instead of whatever the heap happened to hold
         p = subprocess.run([sys.executable, "-c", PLAIN_SCRIPT % {"verif": paths.VERIF, "tier": ctx.tier, "n": n, "k": k}],
-                           capture_output=True, text=True, env=dict(os.environ, PYTHONHASHSEED="0"), cwd=paths.VERIF)
+                           capture_output=True, text=True, env=dict(os.environ, PYTHONHASHSEED="0", MALLOC_PERTURB_="165"), cwd=paths.VERIF)
         line = [l for l in p.stdout.splitlines() if l.startswith("PLAIN ")]
         if not line:
             raise HarnessError("stock-build worker failed (exit %s): %s\n%s" % (p.returncode, p.stdout[-800:], p.stderr[-3000:]))
